@@ -443,8 +443,10 @@ void dispatchValue(GenState &gs, Node *c, RegisterIndex tgt) {
           arglocs.size() == 2 && c->right->left->t == Node::Type::NAME &&
           c->right->right->left->t == Node::Type::NUMBER;
 
+      // ... only where the name was written by the standard macros: in user
+      // text __INC__ and __DEC__ are identifiers like any other
       if ((funcname == "__INC__" || funcname == "__DEC__") &&
-          register_constant_operation) {
+          c->left->file == "__standards__" && register_constant_operation) {
         int cs = strToIntSilent(c->right->right->left);
         if (funcname == "__INC__")
           gs.emit(Instruction::Add(tgt, arglocs[0], cs));
